@@ -355,6 +355,13 @@ Section Coercers.
     | OutIso args => isoformat v args
     end.
 
+  (* UpnpStateVariable.coerce_upnp: a bool offered for an integer type is sent as its number *)
+  Definition coerce_upnp (row : type_row) (v : pyval) : res pystr :=
+    match r_type row, v with
+    | TInt, VBool b => apply_out (r_out row) (VInt (if b then 1 else 0)%Z)
+    | _, _ => apply_out (r_out row) v
+    end.
+
   Definition apply_in (i : in_coercer) (s : pystr) : res pyval :=
     match i with
     | InInt => match int_of_str s with Ok z => Ok (VInt z) | Raise e => Raise e end
